@@ -19,6 +19,9 @@ type Frame struct {
 	slots       []Val
 	block, prev *ssa.BasicBlock
 	lib         bool
+	fmtCode     bool // strconv or a helper called by it
+	phiDone     bool // the phis of the block about to run were set by if-conversion
+	ifRet       Val  // merged return value of an if-converted pair of returns
 	defers      []func()
 }
 
@@ -83,6 +86,8 @@ type Interp struct {
 	pureDone        map[*ssa.Package]bool
 	pools           map[*Val][]Val
 	poolChoices     int
+	fmtForks        int
+	fmtDepth        int // >0: executing a formatting routine on behalf of the rope model
 	ifConverted     int
 	noIfConv        bool
 
@@ -402,7 +407,7 @@ func (in *Interp) callFunction(fn *ssa.Function, args []Val, env []Val) Val {
 	if !ok {
 		name = fn.String()
 	}
-	if intr, ok := intrinsics[name]; ok {
+	if intr, ok := intrinsics[name]; ok && !(in.fmtDepth > 0 && name == "(time.Duration).String") {
 		return intr(in, args)
 	}
 	if in.w.usesSync {
@@ -420,6 +425,11 @@ func (in *Interp) callFunction(fn *ssa.Function, args []Val, env []Val) Val {
 		in.funcsRun[name]++
 	}
 	fr := &Frame{fn: fn, lib: !in.w.isHarness(fn)}
+	if fn.Pkg != nil && (fn.Pkg.Pkg.Path() == "strconv" || (in.fmtDepth > 0 && fn.Pkg.Pkg.Path() == "time")) {
+		fr.fmtCode = true
+	} else if len(in.stack) > 0 && in.stack[len(in.stack)-1].fmtCode && fn.Pkg != in.w.mq {
+		fr.fmtCode = true // helpers called by strconv (unicode/utf8, math/bits)
+	}
 	if n, ok := in.w.fnSlots[fn]; ok {
 		fr.slots = make([]Val, n)
 	} else {
@@ -470,6 +480,9 @@ func (in *Interp) runBlock(fr *Frame) (Val, bool) {
 			break
 		}
 		nphi++
+		if fr.phiDone {
+			continue
+		}
 		for i, pred := range b.Preds {
 			if pred == fr.prev {
 				phiVals = append(phiVals, fr.get(in, phi.Edges[i]))
@@ -477,11 +490,17 @@ func (in *Interp) runBlock(fr *Frame) (Val, bool) {
 			}
 		}
 	}
-	for i := 0; i < nphi; i++ {
-		fr.set(in, b.Instrs[i].(*ssa.Phi), phiVals[i])
+	if fr.phiDone {
+		fr.phiDone = false
+	} else {
+		for i := 0; i < nphi; i++ {
+			fr.set(in, b.Instrs[i].(*ssa.Phi), phiVals[i])
+		}
 	}
 	for _, instr := range b.Instrs[nphi:] {
-		if fr.lib {
+		if fr.lib && !fr.fmtCode {
+			// (strconv and its helpers terminate; their per-byte work on long
+			// strings is not charged to the library's budget)
 			in.steps++
 			if in.steps > in.stepBudget {
 				w, _ := in.libWhere()
@@ -525,13 +544,25 @@ func (in *Interp) runBlock(fr *Frame) (Val, bool) {
 								fr.defers[i]()
 							}
 							fr.defers = nil
-							return nil, true
+							return fr.ifRet, true
 						}
 						fr.prev, fr.block = b, j
 						return nil, false
 					}
 				}
+				if fr.fmtCode {
+					// inside strconv: how a number is laid out in digits is
+					// not the subject of any check: one alternative is kept
+					// (counted as a narrowed decision).
+					in.ex.NarrowOnce = true
+					in.fmtForks++
+				}
+				d0 := in.ex.St.Decisions
 				taken = in.ex.Branch(c.T)
+				in.ex.NarrowOnce = false
+				if in.ex.St.Decisions > d0 {
+					in.funcsRun["fork@"+in.w.short(fr.fn)]++
+				}
 			}
 			if taken {
 				fr.prev, fr.block = b, b.Succs[0]
@@ -761,8 +792,7 @@ func (in *Interp) visit(fr *Frame, instr ssa.Instruction) {
 			fr.set(in, instr, copyVal(x[i]))
 		case Str:
 			x = in.flat(x)
-			i := in.concIndex(in.to64(fr.get(in, instr.Index), instr.Index.Type()), len(x.B), "index")
-			fr.set(in, instr, x.B[i])
+			fr.set(in, instr, in.strIndex(x, in.to64(fr.get(in, instr.Index), instr.Index.Type())))
 		default:
 			panic(fmt.Sprintf("Index on %T", x))
 		}
@@ -926,6 +956,27 @@ func (in *Interp) loadSymRef(p SymRef) Val {
 	return in.fromTerm(t)
 }
 
+// strIndex: s[idx] with the bounds check of the compiled code. A symbolic
+// index into a short string (digit tables, flag letters) gives the byte as an
+// if-then-else chain instead of one path per value.
+func (in *Interp) strIndex(x Str, idx Sc) Val {
+	if idx.T != nil && len(x.B) >= 2 && len(x.B) <= 256 {
+		in.checkIndex(idx, len(x.B))
+		return in.byteAt(x.B, idx.T)
+	}
+	i := in.concIndex(idx, len(x.B), "index")
+	return x.B[i]
+}
+
+// byteAt: b[idx] for idx known to be in range.
+func (in *Interp) byteAt(b []Sc, idx *Term) Sc {
+	t := in.term(b[len(b)-1])
+	for i := len(b) - 2; i >= 0; i-- {
+		t = in.tt.Ite(in.tt.Eq(idx, in.tt.Const(64, uint64(i))), in.term(b[i]), t)
+	}
+	return in.fromTerm(t)
+}
+
 // checkIndex forks on the bounds check of a symbolic index (as concIndex
 // does) without concretising it.
 func (in *Interp) checkIndex(idx Sc, n int) {
@@ -1013,8 +1064,8 @@ func (in *Interp) lookup(instr *ssa.Lookup, x, idx Val) Val {
 		return v
 	case Str:
 		x = in.flat(x)
-		i := in.concIndex(in.to64(idx, instr.Index.Type()), len(x.B), "index")
-		return x.B[i]
+		i64 := in.to64(idx, instr.Index.Type())
+		return in.strIndex(x, i64)
 	}
 	panic(fmt.Sprintf("lookup on %T", x))
 }
